@@ -165,6 +165,9 @@ class Repo:
         from .absorb import absorb_single_use_procedures, inline_expression_helpers
         self.absorbed: List[str] = absorb_single_use_procedures(self)
         self.absorbed += ['expression helper ' + x for x in inline_expression_helpers(self)]
+        # returned variables of the functions rules are written against get their canonical names back (gxstat/roles.py)
+        from .roles import normalise_return_names
+        self.role_renamed: List[str] = normalise_return_names(self)
 
     # ------------------------------------------------------------------ loading
     def _load(self, path: str) -> None:
@@ -294,7 +297,8 @@ class Repo:
     def stats(self) -> dict:
         nf = sum(1 for _ in self.all_functions())
         return {'files': len(self.modules), 'classes': sum(len(v) for v in self.classes.values()), 'functions': nf,
-                'single_use_helpers_put_back_into_their_caller': list(getattr(self, 'absorbed', []))}
+                'single_use_helpers_put_back_into_their_caller': list(getattr(self, 'absorbed', [])),
+                'returned_variables_renamed_by_role': list(getattr(self, 'role_renamed', []))}
 
 
 # ---------------------------------------------------------------------- generic AST helpers
